@@ -6,7 +6,7 @@ Inductive wcase :=
 | W2 (size thr : nat) (chunks : list (bool * nat)) (observed : list bool)
 (* routing: records (rejected?, dlq write fails?), observed events, observed (stopped, fatal) *)
 | R1 (size thr : nat) (rs : list rec) (es : list ev) (stopped fatal panicked : bool)
-| R2 (size thr : nat) (batches : list (list rec)) (es : list ev) (stopped fatal panicked : bool).
+| R2 (size thr : nat) (batches : list (list rec)) (via_proc : bool) (es : list ev) (stopped fatal panicked : bool).
 
 Definition beq := Bool.eqb.
 
@@ -36,8 +36,11 @@ Definition chk (c : wcase) : nat :=
       let (mes, mtm) := route_v1 (new_win size t) false 0 rs in
       code (negb panicked && ev_list_eqb mes es && term_eqb mtm stopped fatal)
            (negb panicked && route_ok size t rs es stopped)
-  | R2 size t bs es stopped fatal panicked =>
-      let (mes, mtm) := route_v2 (new_win size t) 0 bs in
+  (* via_proc: the rejections come from a processor; doTaskAttempt marks a processor error
+     that the DLQ does not absorb as fatal whatever the threshold *)
+  | R2 size t bs via_proc es stopped fatal panicked =>
+      let (mes, mtm0) := route_v2 (new_win size t) 0 bs in
+      let mtm := match mtm0 with Some f => Some (f || via_proc) | None => None end in
       code (negb panicked && ev_list_eqb mes es && term_eqb mtm stopped fatal)
            (negb panicked && route_ok size t (concat bs) es stopped)
   end.
